@@ -264,6 +264,18 @@ def load(repo):
             n = _convert(doc, _LineTracker())
             if n.kind == 'FunctionDecl' and n.name == name and any(k.kind == 'CompoundStmt' for k in n.kids):
                 decls['fn:' + name] = n
+    # classes of the header used as types of locals in parse_sentence but declared outside namespace parsing
+    if 'parse_sentence' in decls:
+        wanted = set()
+        for v in decls['parse_sentence'].find('VarDecl'):
+            tname = (v.type or '').replace('const ', '').replace('struct ', '').replace('class ', '').strip(' &*')
+            if _re.match(r'^[A-Za-z_]\w*$', tname) and tname not in decls and _re.search(r'\b(class|struct)\s+%s\b' % _re.escape(tname), text):
+                wanted.add(tname)
+        for name in sorted(wanted):
+            for doc in _split_docs(_run_clang(repo.root, name)):
+                n = _convert(doc, _LineTracker())
+                if n.kind == 'CXXRecordDecl' and n.name == name and any(k.kind in ('FieldDecl', 'CXXMethodDecl') for k in n.kids):
+                    decls[name] = n
     for need in ('parse_sentence', 'cell_item', 'chart', 'matrix', 'operator<',
                  'compute_outside_probabilities', 'config', 'combinator_result', 'utils::argmax'):
         if need not in decls:
@@ -526,7 +538,14 @@ def term(n, env=None, _depth=0):
         name = callee.ref or callee.name or '?'
         args = tuple(T(a) for a in n.kids[1:])
         if env is not None and name in getattr(env, 'functions', {}):
+            inl = inline_record_builder(env, env.functions[name], args)
+            if inl is not None:
+                return inl
             inl = inline_callable(env, env.functions[name], args, _depth)
+            if inl is not None:
+                return inl
+        if env is not None and callee.refkind == 'CXXMethodDecl' and name in getattr(env, 'static_builders', {}):
+            inl = inline_record_builder(env, env.static_builders[name], args)
             if inl is not None:
                 return inl
         return ('call', name, args)
@@ -599,6 +618,63 @@ def summarise_callable(fn_node, outer_lambdas=()):
     return t
 
 
+def summarise_record_builder(fn_node, record_name, fields):
+    """a function that declares one local of record type, assigns each of its fields once and returns it is that record's
+    initialiser list: -> ('init', values in field order) over the function's parameters, or None"""
+    body = None
+    for k in fn_node.kids:
+        if k.kind == 'CompoundStmt':
+            body = k
+    if body is None:
+        return None
+    env = Env(fn_node)
+    stmts = list(body.kids)
+    if len(stmts) < 3 or stmts[0].kind != 'DeclStmt' or stmts[-1].kind != 'ReturnStmt':
+        return None
+    vds = stmts[0].find('VarDecl')
+    if len(vds) != 1 or record_name not in (vds[0].type or ''):
+        return None
+    var = vds[0].name
+    vals = {}
+    for st in stmts[1:-1]:
+        n = strip(st)
+        if n.kind != 'BinaryOperator' or n.op != '=':
+            return None
+        lhs = strip(n.kids[0])
+        if lhs.kind != 'MemberExpr' or strip(lhs.kids[0]).ref != var or lhs.name in vals:
+            return None
+        vals[lhs.name] = term(n.kids[1], env)
+    ret = [x for x in stmts[-1].walk() if x.kind == 'DeclRefExpr']
+    if len(ret) != 1 or ret[0].ref != var:
+        return None
+    if set(vals) != set(fields):
+        return None
+    if any(('var', var) in set(subterms(v)) for v in vals.values()):
+        return None
+    return ('init', tuple(vals[f] for f in fields))
+
+
+def inline_record_builder(env, fn_node, args):
+    recs = getattr(env, 'records', None)
+    if not recs or fn_node is None:
+        return None
+    cache = env.__dict__.setdefault('_builders', {})
+    key = fn_node.id or id(fn_node)
+    if key not in cache:
+        cache[key] = None
+        for rname, flds in recs.items():
+            r = summarise_record_builder(fn_node, rname, flds)
+            if r is not None:
+                cache[key] = r
+    body = cache[key]
+    if body is None:
+        return None
+    params = [p.name for p in fn_node.kids if p.kind == 'ParmVarDecl']
+    if len(params) != len(args):
+        return None
+    return subst(body, {('var', p): a for p, a in zip(params, args)})
+
+
 def inline_callable(env, fn_node, args, depth):
     if fn_node is None or depth > 20:
         return None
@@ -668,6 +744,8 @@ def subst(t, mapping):
     out = tuple(out)
     if out and out[0] == 'cond' and len(out) == 4 and out[1][0] == 'lit':
         out = mk_cond(out[1], out[2], out[3])
+    if out and out[0] == 'mem' and len(out) == 3 and isinstance(out[1], tuple) and out[1] and out[1][0] == 'addr':
+        out = ('mem', out[1][1], out[2])        # (&x)->f is x.f (a pointer parameter bound to an address)
     return mapping.get(out, out)
 
 
